@@ -731,7 +731,19 @@ def _call(v, site, fn, what):
     except BaseException as e:  # noqa: B036 — observing exactly this is the point
         if not ordinary(e):
             v.bad("non-ordinary-exception:" + exc_class(e), "%s raised %s: %s" % (what, exc_class(e), str(e)[:160]), site)
+        # keep the class and the text only: the traceback's frames hold memoryviews of mapped files
+        e.__traceback__ = None
+        e.__context__ = None
+        e.__cause__ = None
         return ("exc", e)
+
+
+def _close(x):
+    try:
+        if x is not None:
+            x.close()
+    except BaseException:  # noqa: B036
+        pass
 
 
 # --------------------------------------------------------------------------- feeding streams
@@ -1173,8 +1185,10 @@ def _damage(seed, tag, target, mut):
     return ent["dir"], p, data
 
 
-def _hash_rule(v, site, what, name, t, raw):
+def _hash_rule(v, site, what, name, t, raw, record_only=False):
     h = harness_hash(t, raw)
+    if h != name and record_only:
+        return False
     if h != name:
         v.bad("yields-object-not-hashing-to-its-name", "%s returned type %d, %d bytes hashing to %s for the name %s" % (
             what, t, len(raw), h[:12].decode(), name[:12].decode()), site)
@@ -1202,6 +1216,7 @@ def run_pair(seed, mut, variant):
     what0 = "%s%s" % (seed, "" if mut is None else " %s %r" % (target, tuple(mut)))
     v = Verdict("read:pack")
     dmg = "damaged-" + target if target else "crafted"
+    crafted = seed.startswith("pair.atk:")  # the index names are the attacker's: nothing to hold them against
     for op in (ops or PAIR_OPS):
         site = "read:pack:" + op
         p = None
@@ -1212,7 +1227,7 @@ def run_pair(seed, mut, variant):
                     try:
                         return (len(pk), sorted(pk), [hex_to_sha(n) in pk for n in files["names"]])
                     finally:
-                        pk.close()
+                        _close(pk)
                 _oc(v, site, _call(v, site, f, "Pack(%s): len/iter/in" % what0))
             elif op == "get_raw":
                 pk = Pack(base, object_format=_OF)
@@ -1223,19 +1238,19 @@ def run_pair(seed, mut, variant):
                     for n in names:
                         r = _call(v, site, lambda: pk.get_raw(hex_to_sha(n)), "Pack(%s).get_raw(%s)" % (what0, n[:10].decode()))
                         if r[0] == "ok":
-                            good = _hash_rule(v, site + ":" + dmg, "Pack(%s).get_raw" % what0, n, r[1][0], r[1][1])
+                            good = _hash_rule(v, site + ":" + dmg, "Pack(%s).get_raw" % what0, n, r[1][0], r[1][1], crafted)
                             v.cls("%s:%s" % (site, "ok" if good else "ok-but-wrong-content"))
                         else:
                             _oc(v, site, r)
                 finally:
-                    pk.close()
+                    _close(pk)
             elif op == "iterobjects":
                 def f():
                     pk = Pack(base, object_format=_OF)
                     try:
                         return [(o.id, o.type_num, o.as_raw_string()) for o in pk.iterobjects()]
                     finally:
-                        pk.close()
+                        _close(pk)
                 r = _call(v, site, f, "Pack(%s).iterobjects()" % what0)
                 _oc(v, site, r)
                 if r[0] == "ok":
@@ -1248,12 +1263,12 @@ def run_pair(seed, mut, variant):
                         pk.check()
                         return [(n, pk.get_raw(hex_to_sha(n))) for n in sorted(pk)]
                     finally:
-                        pk.close()
+                        _close(pk)
                 r = _call(v, site, f, "Pack(%s).check()" % what0)
                 _oc(v, site, r)
                 if r[0] == "ok":
                     for n, (t, raw) in r[1]:
-                        _hash_rule(v, site, "Pack(%s).check() passed; get_raw" % what0, n, t, raw)
+                        _hash_rule(v, site, "Pack(%s).check() passed; get_raw" % what0, n, t, raw, crafted)
             elif op == "store":
                 site = "read:store-packed"
                 st = DiskObjectStore(objdir)
@@ -1266,12 +1281,12 @@ def run_pair(seed, mut, variant):
                             _oc(v, site + ":contains", r)
                         r = _call(v, site + ":get_raw", lambda: st.get_raw(n), "DiskObjectStore.get_raw(%s) with %s" % (n[:10].decode(), what0))
                         if r[0] == "ok":
-                            good = _hash_rule(v, site + ":get_raw:" + dmg, "DiskObjectStore.get_raw with %s" % what0, n, r[1][0], r[1][1])
+                            good = _hash_rule(v, site + ":get_raw:" + dmg, "DiskObjectStore.get_raw with %s" % what0, n, r[1][0], r[1][1], crafted)
                             v.cls("%s:get_raw:%s" % (site, "ok" if good else "ok-but-wrong-content"))
                         else:
                             _oc(v, site + ":get_raw", r)
                 finally:
-                    st.close()
+                    _close(st)
             else:
                 raise AssertionError(op)
         finally:
@@ -1338,7 +1353,7 @@ def run_loose(seed, mut, variant):
                     _hash_rule(v, site + ":getitem", "DiskObjectStore[name] with %s" % what0, name, r[1][0], r[1][1])
                 _oc(v, site + ":getitem", r)
             finally:
-                st.close()
+                _close(st)
     return v.result()
 
 
@@ -1425,7 +1440,7 @@ def run_cgraph(seed, mut, variant):
         try:
             return use(st.get_commit_graph())
         finally:
-            st.close()
+            _close(st)
     r = _call(v, site, f, "DiskObjectStore.get_commit_graph() with %s" % what)
     _oc(v, site, r)
     return v.result()
@@ -1457,7 +1472,7 @@ def run_midx(seed, mut, variant):
             out.append(k)
             return out
         finally:
-            m.close()
+            _close(m)
     r = _call(v, site, f, "load_midx(%s)" % what)
     _oc(v, site, r)
     site = "read:midx:DiskObjectStore"
@@ -1516,7 +1531,7 @@ def run_bitmap(seed, mut, variant):
         try:
             return use(read_bitmap(path, pack_index=pk.index))
         finally:
-            pk.close()
+            _close(pk)
     r = _call(v, site, f, "read_bitmap(%s)" % what)
     _oc(v, site, r)
     site = "read:bitmap:Pack.bitmap"
@@ -1526,7 +1541,7 @@ def run_bitmap(seed, mut, variant):
         try:
             return use(pk.bitmap)
         finally:
-            pk.close()
+            _close(pk)
     r = _call(v, site, g, "Pack.bitmap with %s" % what)
     _oc(v, site, r)
     return v.result()
@@ -1548,6 +1563,14 @@ def sb_case(case):
     finally:
         if _NCASE % 64 == 0:
             gc.collect()  # reference cycles holding mappings of damaged files must not pile up in a long-lived worker
+
+
+def sb_case_timed(case):
+    import time
+
+    t = time.process_time()
+    classes, viol = sb_case(case)
+    return (classes, viol, time.process_time() - t)
 
 
 def site_of(case):
